@@ -138,6 +138,22 @@ def role_event(role: str, fn: Any, args: list[Any], evs: list[dict[str, Any]]) -
 # --------------------------------------------------------------------------------------
 
 
+def add_taproot_tree_kinds(kit: Kit) -> None:
+    """Taproot outputs with a script tree: one signer holds the internal key AND a leaf key (it answers with a key-path and a script-path
+    signature in one round), the other a second leaf; and a 2-of-2 multi_a leaf."""
+    from btclib.bip32 import bip32
+    from btclib.descriptors import descriptors
+
+    def acct(s: Any, x: str, path: str) -> str:
+        return f"[{s.master_fingerprint.hex()}/{path[2:]}]" + bip32.xpub_from_xprv(bip32.derive(x, path))
+
+    from .c18 import X1
+
+    a, b = acct(kit.s1, X1, "m/86h/0h/7h"), acct(kit.s2, kit.X2, "m/86h/0h/7h")
+    kit.kinds["p2tr-tree"] = {"desc": descriptors.parse(f"tr({a}/0/*,{{pk({a}/1/*),pk({b}/0/*)}})"), "signers": [kit.s1, kit.s2]}
+    kit.kinds["p2tr-multi_a"] = {"desc": descriptors.parse(f"tr({b}/2/*,multi_a(2,{a}/3/*,{b}/3/*))"), "signers": [kit.s1, kit.s2]}
+
+
 def base_psbts(kit: Kit, rnd: random.Random, thorough: bool) -> list[tuple[Any, list[str]]]:
     """Updated, unsigned PSBTs over several input types (v0), and their v2 forms with BIP370 fields set."""
     from btclib.fee import FeeRate
@@ -146,11 +162,22 @@ def base_psbts(kit: Kit, rnd: random.Random, thorough: bool) -> list[tuple[Any, 
     from btclib.tx_builder import build_psbt
 
     out = []
-    mixes = [["p2wpkh", "p2wsh-p2ms", "p2tr"], ["p2pkh", "p2sh-p2wpkh"], ["p2tr", "p2tr"], ["p2sh-p2ms", "p2wpkh"]] + ([["p2wsh-p2ms-3", "p2pk"], ["p2sh-p2wsh-p2ms", "p2tr", "p2pkh"]] if thorough else [])
+    mixes = [["p2wpkh", "p2wsh-p2ms", "p2tr"], ["p2pkh", "p2sh-p2wpkh"], ["p2tr", "p2tr"], ["p2sh-p2ms", "p2wpkh"], ["p2tr-tree", "p2tr-multi_a"]] + ([["p2wsh-p2ms-3", "p2pk"], ["p2sh-p2wsh-p2ms", "p2tr", "p2pkh"]] if thorough else [])
     for r, mix in enumerate(mixes):
         ins = [kit.input(t, 5 * r + k, 150_000 + k, k)[0] for k, t in enumerate(mix)]
-        built = build_psbt(ins, [TxOut(70_000, ScriptPubKey(bytes.fromhex("0014" + "99" * 20), check_validity=False))], FeeRate(sats_per_kvbyte=2000), bytes.fromhex("5120" + "55" * 32))
-        p0 = built.psbt
+        if any("p2tr-" in t for t in mix):              # the builder has no size estimate for a script path: the Creator and Updater by hand
+            from btclib.psbt.psbt import Psbt
+            from btclib.tx import OutPoint, Tx, TxIn
+
+            tx = Tx(2, 0, [TxIn(OutPoint(pin.previous_tx_id, pin.output_index), b"", 0xFFFFFFFD) for pin in ins],
+                    [TxOut(70_000, ScriptPubKey(bytes.fromhex("0014" + "99" * 20), check_validity=False)), TxOut(200_000, ScriptPubKey(bytes.fromhex("5120" + "55" * 32), check_validity=False))])
+            p0 = Psbt.from_tx(tx, check_validity=False)
+            for k, (t, pin) in enumerate(zip(mix, ins)):
+                p0.inputs[k].non_witness_utxo = pin.non_witness_utxo
+                p0 = kit.kinds[t]["desc"].update_psbt_input(p0, k, 5 * r + k)
+            p0.assert_valid()
+        else:
+            p0 = build_psbt(ins, [TxOut(70_000, ScriptPubKey(bytes.fromhex("0014" + "99" * 20), check_validity=False))], FeeRate(sats_per_kvbyte=2000), bytes.fromhex("5120" + "55" * 32)).psbt
         out.append((p0, mix))
         p2 = p0.to_v2()
         p2.inputs[0].sequence = 0                       # BIP125 gives 0 a meaning: it is a value, not an absence
@@ -354,11 +381,16 @@ def check(run: Run) -> None:
                 "finalize, each checked for the transaction, the arguments and shared objects")
     run.assumptions = ["an answer's signatures are valid when they are the library signer's own and untouched (the harness knows which pair it changed)",
                        "operands that give one key two values (a conflict) may be resolved either way: only their refusal on a version mismatch is checked"]
+    live = tlc.run("PsbtRolesModel", cfg_text="SPECIFICATION FairSpec\nCONSTANTS Signers = {1, 2}\nPairs = {10}\nPROPERTY HonestSignaturesArrive\nCHECK_DEADLOCK FALSE\n", workers=4)
+    for v in live.violations:
+        raise tlc.TLCFailure(f"PsbtRolesModel violates {v.name}:\n{v.text[:600]}")
+    run.tlc(live, "M PsbtRolesModel liveness")
     res = tlc.run("PsbtRolesModel", cfg_text=MODEL_CFG.format(s="1, 2, 3"), workers=16)
     for v in res.violations:
         raise tlc.TLCFailure(f"PsbtRolesModel violates {v.name}:\n{v.text[:600]}")
     run.tlc(res, "M PsbtRolesModel")
     kit = Kit()
+    add_taproot_tree_kinds(kit)
     bases = base_psbts(kit, rnd, thorough)
     evs: list[dict[str, Any]] = []
     s1 = record_combines(run, rnd, thorough, evs, kit, bases)
